@@ -335,6 +335,11 @@ func Check(o CheckOptions) int {
 		if o.RunsScale > 0 {
 			total = int(float64(total) * o.RunsScale)
 		}
+		if v := os.Getenv("VERIF_RUNS_TOTAL"); v != "" {
+			if n, err := strconv.Atoi(v); err == nil && n > 0 {
+				total = n // wrapper scripts: an exact number of runs (C20's cold-start phase: one run per process)
+			}
+		}
 		if total < 1 {
 			total = 1
 		}
